@@ -107,14 +107,14 @@ def run(ctx):
     if mods:
         import extract
         ctx.gen_tables = extract.all_tables()      # C01Suites is proved over the table regenerated from the source
-        import c01_pipeline_thms, export_thms, c01_rfc_thms, c01_full_thms     # export_thms: C01 from capture-file bytes to output-file bytes
+        import c01_pipeline_thms, export_thms, c01_rfc_thms, c01_full_thms, c01_all_thms     # export_thms: C01 from capture-file bytes to output-file bytes
         import translate                 # decision-logic functions re-translated from the source and proved equal to the model
         _tm, _tt = translate.wire(ctx, "C01")
         ctx.prove(list(dict.fromkeys(mods + ["TLX.Props.C01Suites"] + list(getattr(rl, "PROVE_MODULES", []))
-                                     + c01_pipeline_thms.MODULES + export_thms.MODULES + c01_rfc_thms.MODULES + c01_full_thms.MODULES + _tm)))
+                                     + c01_pipeline_thms.MODULES + export_thms.MODULES + c01_rfc_thms.MODULES + c01_full_thms.MODULES + c01_all_thms.MODULES + _tm)))
         ctx.require_theorems(_tt)
         ctx.require_theorems(list(getattr(rl, "THEOREMS", THEOREMS)) + c01_pipeline_thms.THEOREMS
-                             + export_thms.THEOREMS + c01_rfc_thms.THEOREMS + c01_full_thms.THEOREMS + [
+                             + export_thms.THEOREMS + c01_rfc_thms.THEOREMS + c01_full_thms.THEOREMS + c01_all_thms.THEOREMS + [
             "TLX.Props.C01Suites.table_covered", "TLX.Props.C01Suites.every_table_suite_has_proved_class",
             "TLX.Props.C01Suites.table_suite_cipher_type_known"])
         rl.run_reclayer(ctx)
